@@ -47,6 +47,18 @@ theorem c08_memory_refs (s : St) (hf : SpaceInv s.f s.imports .F) (hg : SpaceInv
     simpa [designated, hsp] using d
   · right; exact h
 
+/-- **a reported id is new.** With stored ids equal to positions (`IdsFresh`, a clause of the state invariant of every state reached
+    from a parsed module before an encode), the id reported for an added memory - the length of the vector - is held by no entity of
+    the space, live or deleted (the `edit` family judges this on the crate: signature `M-returned-id-already-in-use`). -/
+theorem c08_reported_id_is_new (s : St) (hf : IdsFresh s.m.items) (it : Item) (hit : it ∈ s.m.items) :
+    it.id ≠ s.m.items.length := by
+  obtain ⟨i, hi⟩ := List.mem_iff_getElem?.mp hit
+  have hid := hf i it hi
+  have hlt : i < s.m.items.length := by
+    rcases List.getElem?_eq_some_iff.mp hi with ⟨h, _⟩
+    exact h
+  omega
+
 /-- the ids reported by the memory additions are the positions the memories are stored at -/
 theorem c08_added_memory_ids (s : St) (uid : Nat) :
     (addImportMem s uid).2 = Ret.id2 s.m.items.length s.imports.length
